@@ -27,13 +27,15 @@ variable {R : Type} [Add R] [Sub R] [Mul R] [Div R] [LT R] [DecidableLT R] [OfNa
 
 /-! ## 1. Helpers leave their inputs untouched -/
 
-/-- **helpers_pure** (for the repaired `generate_centroids`): every modelled helper only
-allocates.  `allocT` stands for the helpers that build their result from values read from the
-arguments (`find_points_bbox_midpoint`, `make_centered_bboxes`, `generate_crops`,
-`generate_confmaps`, `generate_multiconfmaps`, `generate_pafs`, `apply_sizematcher`,
-`apply_pad_to_stride`, `apply_normalization`, both augmentation functions); `prepT` is
-`* eff_scale` followed by `apply_resizer` (which returns its argument itself when `scale == 1`);
-`allocD` is `dict.copy()`. -/
+/-- **helpers_pure** (for the repaired `generate_centroids`).  Content: the first two conjuncts —
+the repaired `generate_centroids` and `prepT` (`* eff_scale` followed by `apply_resizer`, which
+returns its argument itself when `scale == 1`) only allocate.  The last two conjuncts are
+**definitional**: the other 14 helpers (`find_points_bbox_midpoint`, `make_centered_bboxes`,
+`generate_crops`, `generate_confmaps`, `generate_multiconfmaps`, `generate_pafs`,
+`apply_sizematcher`, `apply_pad_to_stride`, `apply_normalization`, grayscale/rgb, both
+augmentation functions) are *modelled as* `allocT` and `dict.copy()` as `allocD`, so for them the
+theorem says nothing about the code — their purity is **measured only** (harness `helper_purity`,
+`poke_sample`, the `apply_aug=True` dataset slice). -/
 theorem helpers_pure (h : Heap R) (t : TRef) (nI nN : Nat) (a : Option Nat) (eff s : R)
     (v : List (Pt R)) (d : List (Key × TRef)) :
     Ext h (genCentroids .repaired h t nI nN a).1 ∧ Ext h (prepT h t eff s).1 ∧
@@ -451,6 +453,103 @@ theorem present_stays_present_centered (cfg : Cfg R) (cast : Nat → R) (f : Fra
     simp only [Option.map_some, Option.getD_some] at hPn ⊢
     exact hsub _ q2 (hsub p q1 hPn hq1) hq2
 
+/-! ## 3c. Composed statements: from the stored labels to `ds[i]` -/
+
+/-- the `centroids` entry of a row: NaN for a row without any labelled coordinate (the padding
+rows, in particular), a point for a row with a fully labelled node -/
+theorem centroid_missing_iff (anchor : Option Nat) (e s : R) (row : List (Pt R)) :
+    ((∀ p ∈ row, p = Pt.nan) → centroidOf anchor (prepPts e s row) = Pt.nan) ∧
+    ((∃ p ∈ row, p.full = true) → (centroidOf anchor (prepPts e s row)).full = true) := by
+  constructor
+  · intro h
+    have hrow : prepPts e s row = row := by
+      unfold prepPts
+      have h1 : ∀ t : R, row.map (Pt.scale t) = row := by
+        intro t
+        conv => rhs; rw [← List.map_id row]
+        apply List.map_congr_left
+        intro p hp
+        rw [h p hp]; rfl
+      split
+      · exact h1 e
+      · rw [h1 e, h1 s]
+    rw [hrow]
+    have hmid : bboxMid row = Pt.nan := by
+      have h1 : midC (row.map (·.1)) = none := (centroid_none_iff _).mpr (by
+        intro x hx; obtain ⟨p, hp, rfl⟩ := List.mem_map.mp hx; rw [h p hp]; rfl)
+      have h2 : midC (row.map (·.2)) = none := (centroid_none_iff _).mpr (by
+        intro x hx; obtain ⟨p, hp, rfl⟩ := List.mem_map.mp hx; rw [h p hp]; rfl)
+      simp only [bboxMid, h1, h2]; rfl
+    unfold centroidOf
+    cases anchor with
+    | none => exact hmid
+    | some a =>
+      have hg : row.getD a Pt.nan = Pt.nan := by
+        rw [List.getD_eq_getElem?_getD]
+        cases hc : row[a]? with
+        | none => rfl
+        | some p => simp only [Option.getD_some]; exact h p (List.mem_of_getElem? hc)
+      simp only [hg]
+      simp [Pt.missing, Pt.nan, hmid]
+  · intro ⟨p, hp, hf⟩
+    apply centroid_present
+    obtain ⟨n, hn, rfl⟩ := List.getElem_of_mem hp
+    obtain ⟨x, y, hxy⟩ : ∃ x y, row[n] = (some x, some y) := by
+      rcases hl : row[n] with ⟨a, b⟩
+      rw [hl] at hf
+      cases a <;> cases b <;> simp [Pt.full] at hf
+      exact ⟨_, _, rfl⟩
+    have hv := prepPts_value e s row n x y (by simp [List.getD_eq_getElem?_getD, hn, hxy])
+    have hnP : n < (prepPts e s row).length := by rw [prepPts_length]; exact hn
+    refine ⟨(prepPts e s row)[n], List.getElem_mem hnP, ?_⟩
+    have : (prepPts e s row)[n] = (prepPts e s row).getD n Pt.nan := by
+      simp [List.getD_eq_getElem?_getD, hnP]
+    rw [this, hv]
+    split <;> rfl
+
+/-- **ds_missing_iff_label** (bottom-up, single-instance, centroid classes), from the *stored*
+labels to the returned sample: for the `i`-th sample (frame `fi`), `ds[i]` exists; its
+`instances` tensor is, row by row, the `labelPts` (`Instance.numpy()`) of the kept — non-empty,
+user-filtered — instances of that frame in order, scaled, followed by rows that are entirely NaN;
+scaling keeps the NaN pattern entry by entry (so a label coordinate is NaN **iff** the sample
+coordinate is); `num_instances` counts the kept rows; in the centroid class the `centroids` entry
+is `centroidOf` of each such row (`centroid_missing_iff`: NaN on the padding rows, a point for
+every row with a fully labelled node). -/
+theorem ds_missing_iff_label (cfg : Cfg R) (cast : Nat → R) (fs : List (RawFrame R)) (i fi : Nat)
+    (rf : RawFrame R) (hk : cfg.kind ≠ .centered)
+    (hi : (lfIdxList cfg.userOnly (fs.map RawFrame.abs))[i]? = some fi) (hf : fs[fi]? = some rf) :
+    ∃ d m pad, specSample cfg cast (fs.map RawFrame.abs) i = some (d, m) ∧
+      (∀ r ∈ pad, ∀ p ∈ r, p = Pt.nan) ∧
+      d.get Key.instances =
+        (((((rf.abs.filtered cfg.userOnly).filter (fun i => !i.isEmpty)).map (·.pts)) ++ pad).map
+          (prepPts (cfg.eff cast rf.abs) cfg.scale)).flatten ∧
+      (∀ row, (prepPts (cfg.eff cast rf.abs) cfg.scale row).map nanPat = row.map nanPat) ∧
+      m.numInstances = ((rf.abs.filtered cfg.userOnly).filter (fun i => !i.isEmpty)).length ∧
+      (cfg.kind = .centroid → d.get Key.centroids =
+        (((((rf.abs.filtered cfg.userOnly).filter (fun i => !i.isEmpty)).map (·.pts)) ++ pad).map
+          (prepPts (cfg.eff cast rf.abs) cfg.scale)).map (centroidOf cfg.anchor)) := by
+  have hs : specCache cfg cast (fs.map RawFrame.abs) = (lfIdxList cfg.userOnly (fs.map RawFrame.abs)).map
+      (fun i => (((fs.map RawFrame.abs)[i]?).map fun f =>
+        specFrameCached cfg cast (cfg.maxInst (fs.map RawFrame.abs)) f).getD noEntry) := by
+    unfold specCache; cases hk2 : cfg.kind <;> simp_all
+  have hst : cfg.steps cast = [] := by
+    unfold Cfg.steps; cases hk2 : cfg.kind <;> simp_all
+  obtain ⟨pad, hp1, hp2, hp3⟩ := padding_rows_missing cfg.userOnly (cfg.maxInst (fs.map RawFrame.abs)) rf.abs
+  refine ⟨(specFrameCached cfg cast (cfg.maxInst (fs.map RawFrame.abs)) rf.abs).1,
+    (specFrameCached cfg cast (cfg.maxInst (fs.map RawFrame.abs)) rf.abs).2, pad, ?_, hp2, ?_,
+    fun row => prepPts_pattern _ _ row, ?_, ?_⟩
+  · unfold specSample
+    rw [hs, List.getElem?_map, hi]
+    simp [List.getElem?_map, hf, hst, applySteps]
+  · rw [(present_stays_present cfg cast _ rf.abs).1, hp1]
+  · rw [← hp3]
+    unfold specFrameCached
+    cases cfg.kind <;> rfl
+  · intro hc
+    rw [← hp1]
+    unfold specFrameCached
+    simp [hc, DictV.get, assocGet]
+
 /-! ## 4. `__getitem__`: only allocation; deterministic -/
 
 omit [Add R] [Sub R] [Mul R] [Div R] [LT R] [DecidableLT R] [OfNat R 0] [OfNat R 1] [OfNat R 2] [DecidableEq R] in
@@ -591,6 +690,52 @@ omit [Add R] [Sub R] [Mul R] [Div R] [LT R] [DecidableLT R] [OfNat R 0] [OfNat R
 theorem filtered_idem (uo : Bool) (f : Frame R) :
     Frame.filtered uo { f with insts := f.filtered uo } = f.filtered uo :=
   SleapVerif.Datasets.filtered_idem uo f
+
+omit [Add R] [Sub R] [Mul R] [Div R] [LT R] [DecidableLT R] [OfNat R 0] [OfNat R 1] [OfNat R 2] [DecidableEq R] in
+/-- **len_eq_labelled**: for well-flagged stored labels the dataset length is the number of
+(user-filtered) instances that have a labelled keypoint (centered class), resp. of frames
+holding such an instance (other classes) — "non-empty" is no longer the `is_empty` flag but
+"some coordinate of `labelPts` is a number". -/
+theorem len_eq_labelled (cfg : Cfg R) (fs : List (RawFrame R))
+    (hw : ∀ f ∈ fs, ∀ r ∈ f.insts, r.WellFlagged) :
+    (cfg.kind = .centered → specLen cfg (fs.map RawFrame.abs) =
+      ((fs.map RawFrame.abs).map fun f =>
+        (f.filtered cfg.userOnly).countP (fun i => i.pts.any (fun p => !p.invisible))).sum) ∧
+    (cfg.kind ≠ .centered → specLen cfg (fs.map RawFrame.abs) =
+      (fs.map RawFrame.abs).countP (fun f =>
+        (f.filtered cfg.userOnly).any (fun i => i.pts.any (fun p => !p.invisible)))) := by
+  have hemp : ∀ f ∈ fs.map RawFrame.abs, ∀ i ∈ f.filtered cfg.userOnly,
+      (!i.isEmpty) = i.pts.any (fun p => !p.invisible) := by
+    intro f hf i hi
+    obtain ⟨rf, hrf, rfl⟩ := List.mem_map.mp hf
+    have hi' := mem_filtered cfg.userOnly rf.abs i hi
+    simp only [RawFrame.abs] at hi'
+    obtain ⟨r, hr, rfl⟩ := List.mem_map.mp hi'
+    rw [empty_iff_all_missing r (hw rf hrf r hr)]
+    simp only [RawInst.abs]
+    induction r.labelPts with
+    | nil => rfl
+    | cons p ps ih => simp only [List.all_cons, List.any_cons, Bool.not_and, ih]
+  constructor
+  · intro hk
+    rw [len_eq_nonempty cfg _ hk]
+    congr 1
+    apply List.map_congr_left
+    intro f hf
+    apply List.countP_congr
+    intro i hi
+    rw [hemp f hf i hi]
+  · intro hk
+    rw [len_frames_eq_nonempty cfg _ hk]
+    apply List.countP_congr
+    intro f hf
+    unfold Frame.hasNonEmpty
+    simp only [List.any_eq_true]
+    constructor
+    · intro ⟨i, hi, h⟩
+      exact ⟨i, hi, List.any_eq_true.mp (by rw [← hemp f hf i hi]; exact h)⟩
+    · intro ⟨i, hi, h⟩
+      exact ⟨i, hi, by rw [hemp f hf i hi]; exact List.any_eq_true.mpr h⟩
 
 /-! ## 6. A labelled keypoint keeps its confidence-map peak whatever the other animals lack
 
